@@ -359,25 +359,29 @@ def delete_at(t, path):
 
 
 def shrink(pid, bdir, case, still_fails, budget_s=40):
-    """Greedy one-child deletion; still_fails(list of C strings) -> list of bool."""
-    t0 = time.time()
+    """Greedy one-child deletion under a hard wall-clock deadline;
+    still_fails(list of C strings, timeout_s) -> list of bool."""
+    deadline = time.time() + budget_s
     cur = tparse(case["C"])
     improved = True
-    while improved and time.time() - t0 < budget_s:
+    while improved and time.time() < deadline:
         improved = False
         paths = shrink_candidates(cur)
-        # prefer deleting big subtrees first
         cands = [delete_at(cur, p) for p in paths]
-        cands.sort(key=lambda c: len(tprint(c)))
-        for start in range(0, len(cands), 64):
-            batch = cands[start:start + 64]
-            verdicts = still_fails([tprint(c) for c in batch])
+        cands.sort(key=lambda c: len(tprint(c)))   # biggest deletions first
+        cands = cands[:512]
+        for start in range(0, len(cands), 32):
+            remaining = deadline - time.time()
+            if remaining <= 1:
+                break
+            batch = cands[start:start + 32]
+            verdicts = still_fails([tprint(c) for c in batch], max(5, min(30, int(remaining))))
             for c, v in zip(batch, verdicts):
                 if v:
                     cur = c
                     improved = True
                     break
-            if improved or time.time() - t0 > budget_s:
+            if improved:
                 break
     return tprint(cur)
 
@@ -523,7 +527,7 @@ def main(argv):
         corr_ok = not (spec_fail or mismatch or crashed)
 
         def still_fails_factory(cls, want_mismatch):
-            def f(cstrs):
+            def f(cstrs, timeout_s=30):
                 cin = os.path.join(bdir, "shrink_in.txt")
                 cout = os.path.join(bdir, "shrink_out.txt")
                 with open(cin, "w") as fh:
@@ -531,13 +535,13 @@ def main(argv):
                         fh.write("C " + s + "\n")
                 if os.path.exists(cout):
                     os.remove(cout)
-                harness_replay(pid, cin, cout, timeout=120)
+                harness_replay(pid, cin, cout, timeout=timeout_s)
                 cs, _ = parse_cases(cout)
                 if len(cs) != len(cstrs):
                     return [False] * len(cstrs)
                 good = [c for c in cs if c["I"] is not None]
                 if want_mismatch:
-                    run_model(bdir, good, timeout=120)
+                    run_model(bdir, good, timeout=timeout_s)
                 res = []
                 for c in cs:
                     if c["I"] is None or c["ok"] is None:
